@@ -165,10 +165,63 @@ def strip_comments(text: str) -> str:
     return re.sub(r"--.*", "", text)
 
 
+class _TablesDone(Exception):
+    pass
+
+
+def foreign_generated(prop: str) -> list[str]:
+    """properties other than `prop` whose regenerated tables (FordModel/Generated/Cxx*.lean) the module
+    FordModel.Props.<prop> imports, directly or not"""
+    seen, todo, gen = set(), [f"FordModel.Props.{prop}"], set()
+    while todo:
+        m = todo.pop()
+        if m in seen:
+            continue
+        seen.add(m)
+        f = LEAN / (m.replace(".", "/") + ".lean")
+        if not f.exists():
+            continue
+        for x in re.findall(r"^import (FordModel\.[\w.]+)", f.read_text(), re.M):
+            todo.append(x)
+            g = re.match(r"FordModel\.Generated\.(C\d\d)", x)
+            if g:
+                gen.add(g.group(1))
+    return sorted(gen - {prop})
+
+
+def regenerate_tables_of(other: str):
+    """run the translator of another property (the tables of that property that this one's model reads must describe
+    the tree under test too, whichever check is run first)"""
+    import importlib
+
+    mod = importlib.import_module(f"harness.{other.lower()}")
+
+    def only_translate(prop, translate=None, thorough=False):
+        if translate is not None:
+            translate()
+        raise _TablesDone
+
+    saved = getattr(mod, "lean_prove", None)
+    mod.lean_prove = only_translate
+    try:
+        mod.run("quick", 0, None)
+    except _TablesDone:
+        pass
+    finally:
+        if saved is not None:
+            mod.lean_prove = saved
+
+
 def lean_prove(prop: str, translate=None, thorough=False) -> LeanResult:
     """Regenerate tables, build the property module and the driver, audit axioms."""
     res = LeanResult()
     with lean_lock():
+        for other in foreign_generated(prop):
+            try:
+                regenerate_tables_of(other)
+            except Exception as e:  # that property's translator could not find its construct
+                res.translate_ok = False
+                res.translate_msg = f"tables of {other}: {type(e).__name__}: {e}"
         if translate is not None:
             try:
                 translate()
